@@ -2,16 +2,19 @@
 C17: the carriage-return marking step of `serialization.py :: serialize_to_xml` (ElementTree back end, method xml) on the
 WHOLE output of one element, not on one text.
 
-The serializer's output for an element is a sequence of pieces.  The repository's code (fixed tree):
+The serializer's output for an element is a sequence of pieces.  The repository's code (fixed tree, `fix: fn:serialize chooses the U+000D placeholder outside every string …`):
 
-    used = {c for e in elem.iter() for t in (e.text, e.tail, *e.attrib.values()) if t for c in t}
+    used = {c for e in elem.iter() for t in (e.text, e.tail, e.tag, *e.attrib.keys(), *e.attrib.values())
+            if isinstance(t, str) for c in t}
     cr_mark = next(chr(c) for c in range(0xE000, 0xF8FF) if chr(c) not in used)
     … every '\r' of text and tails (not of comments / PIs) is replaced by cr_mark in a deep copy …
     chunks[-1] = tostringlist(copy).replace(cr_mark, '&#13;')          -- on the WHOLE serialized string
 
-`e.text` of a comment / PI is its data, so `used` covers text, tails, attribute values, comment and PI data.  It does NOT
-cover the strings that come from names: namespace URIs of element and attribute names (written by ElementTree as
-`xmlns:nsN="…"`, attribute-escaped).  Core Lean only.
+`e.text` of a comment / PI is its data; `e.tag` and the attribute keys are `{uri}local`, so `used` covers text, tails,
+attribute values, comment and PI data, namespace URIs and local names (`Scan.all`).  Everything else in the output is
+punctuation and generated `nsN` prefixes (ASCII), so scanning the markup pieces as a whole chooses the same mark.
+Before the fix (`Scan.values`, finding F17x) tags and attribute names were not read; `Scan.textTail` is the seeded
+regression (attribute values not read either).  Core Lean only.
 -/
 import EPV.Model.Json
 namespace EPV.Json
@@ -28,14 +31,19 @@ inductive Piece where
 def Piece.src : Piece → Str
   | .markup s | .nsuri s | .chars s | .attr s | .raw s => s
 
-/-- is the piece's source string in the `used` scan of the code?  `attrs = false`: the scan restricted to text and
-tails (and comment / PI data, which are `e.text`) — the seeded regression -/
-def Piece.scanned (attrs : Bool) : Piece → Bool
-  | .chars _ | .raw _ => true
-  | .attr _ => attrs
-  | .markup _ | .nsuri _ => false
+/-- which strings the `used` scan reads: text and tails (+ comment / PI data, which are `e.text`) only — the seeded
+regression; + attribute values — the tree before the fix (F17x); every string — the fixed tree -/
+inductive Scan where
+  | textTail | values | all
+  deriving Repr, DecidableEq, Inhabited
 
-def usedChars (attrs : Bool) (ps : List Piece) : Str := (ps.filter (Piece.scanned attrs)).flatMap Piece.src
+/-- is the piece's source string in the `used` scan? -/
+def Piece.scanned (sc : Scan) : Piece → Bool
+  | .chars _ | .raw _ => true
+  | .attr _ => sc != .textTail
+  | .markup _ | .nsuri _ => sc == .all
+
+def usedChars (sc : Scan) (ps : List Piece) : Str := (ps.filter (Piece.scanned sc)).flatMap Piece.src
 
 /-- `next(chr(c) for c in range(0xE000, 0xF8FF) if chr(c) not in used)`; `none` = StopIteration -/
 def chooseMark (used : Str) : Option Nat := ((List.range (0xF8FF - 0xE000)).map (0xE000 + ·)).find? (fun c => !used.contains c)
@@ -56,9 +64,9 @@ def Piece.emitWanted : Piece → Str
   | .attr s => etEscapeAttr s
   | .raw s => s
 
-/-- the marking step on the whole output; `attrs` as in `Piece.scanned` -/
-def serializeMarked (attrs : Bool) (ps : List Piece) : Option Str :=
-  match chooseMark (usedChars attrs ps) with
+/-- the marking step on the whole output -/
+def serializeMarked (sc : Scan) (ps : List Piece) : Option Str :=
+  match chooseMark (usedChars sc ps) with
   | none => none
   | some k => some (replaceAll [k] [38, 35, 49, 51, 59] (ps.flatMap (Piece.emitMarked k)))
 
@@ -68,14 +76,14 @@ def wantedOutput (ps : List Piece) : Str := ps.flatMap Piece.emitWanted
 def piecesHaveCR (ps : List Piece) : Bool := ps.any fun p => match p with | .chars s => s.contains 13 | _ => false
 
 /-- `serialize_to_xml` on one element: the marking step only when the guard holds, else ElementTree's output as it is -/
-def serializeRepo (attrs : Bool) (ps : List Piece) : Option Str :=
-  if piecesHaveCR ps then serializeMarked attrs ps else some (ps.flatMap (Piece.emitMarked 13))
+def serializeRepo (sc : Scan) (ps : List Piece) : Option Str :=
+  if piecesHaveCR ps then serializeMarked sc ps else some (ps.flatMap (Piece.emitMarked 13))
 
-/-- EXACT trigger of finding F17x (and, with `attrs = false`, of the seeded regression): the chosen mark occurs in a
+/-- EXACT trigger of finding F17x (`Scan.values`; fixed) and of the seeded regression (`Scan.textTail`): the chosen mark occurs in a
 source string that the scan did not look at -/
-def markCollides (attrs : Bool) (ps : List Piece) : Bool :=
+def markCollides (sc : Scan) (ps : List Piece) : Bool :=
   piecesHaveCR ps &&
-  match chooseMark (usedChars attrs ps) with
+  match chooseMark (usedChars sc ps) with
   | none => false
   | some k => ps.any (fun p => p.src.contains k)
 
